@@ -334,7 +334,9 @@ Fixpoint exec (fuel : nat) (s : stmt) (st : store) {struct fuel} : eres out :=
     | SBreak => EOk (OBreak st)
     | SExpr e =>
         match e with
-        | ECall fcallee _ recv args => let! _ := call_results nat_sig nat_fun callf st fcallee recv args in EOk (ONormal st)
+        | ECall fcallee _ recv args =>
+            let! rs := call_results nat_sig nat_fun callf st fcallee recv args in
+            match rs with [] => EOk (ONormal st) | _ => EStuck end
         | _ => EStuck
         end
     | SBlock l => block_with (exec f) l st
